@@ -281,6 +281,29 @@ impl Check for C09 {
                 }
             }
         });
+        // long paths, thousands of dashes, dash arrays with a hundred entries
+        {
+            let mut zig: Vec<POp> = vec![POp::M(3.3, 2.1)];
+            for r in 0..30 {
+                let y = 3.2 + r as f32 * 1.17;
+                zig.push(POp::L(if r % 2 == 0 { 36.7 } else { 3.1 + (r % 5) as f32 * 0.13 }, y));
+            }
+            let mut closed = zig.clone();
+            closed.push(POp::Z);
+            let hundred: Vec<f32> = (0..100).map(|i| 0.4 + ((i * 7) % 13) as f32 * 0.21).collect();
+            let arrs: Vec<Vec<f32>> = vec![vec![0.7, 0.4], vec![0.31, 0.23], hundred.clone(), hundred[..99].to_vec(), vec![3.0, 0.05]];
+            run.bound("long paths", format!("30-segment zigzag (open and closed, about 1000 px long) x {} dash arrays (down to 0.23 long, up to 100 entries) x 4 offsets x 2 styles", arrs.len()));
+            run.par(arrs.len() * 2, |s, l| {
+                let arr = &arrs[s / 2];
+                let ops = if s % 2 == 0 { zig.clone() } else { closed.clone() };
+                for off in [0.0f32, 0.13, -7.77, 55.5] {
+                    for &(w, cap, join) in &[(1.0f32, 0u8, 1u8), (0.5, 1, 0)] {
+                        let st = StyleSpec { width: w, cap, join, miter: 4.0, dash: arr.clone(), offset: off };
+                        account(run, 2000 + s, l, &PathSpec::new(ops.clone()), &st, false);
+                    }
+                }
+            });
+        }
         // arrays whose total is not positive: nothing painted
         let bad: Vec<Vec<f32>> = vec![vec![0.], vec![0., 0.], vec![-1.], vec![5., -10.], vec![f32::NAN], vec![1., f32::NAN], vec![-3., 3.]];
         run.bound("non-positive totals", format!("{} arrays x 72 polylines x 3 offsets", bad.len()));
